@@ -95,7 +95,7 @@ def tasks(tier, seed):
                         continue
                     for qd in qds:
                         for with_tau in (False, True):
-                            if quick and not with_tau and M > 2:
+                            if not with_tau and M > 2:
                                 continue
                             cu_modes = [False, True] if qt in ('RADAU-RIGHT', 'LOBATTO') else [False]
                             for cu in cu_modes:
@@ -280,8 +280,13 @@ def sdc_case(rep, kind, M, nt, qt, qd, with_tau, cu, n, ksweep):
                     weights=np.array(L.sweep.coll.weights, dtype=float))
 
     try:
-        cm.make_level(ss.FLin, {'A': [[-1.0]]}, SWEEPERS['generic_implicit'] if kind == 'multi_implicit' else SWEEPERS[kind],
-                      {**sweeper_params(kind, M, nt, qt, qd, cu), **({'QI': qd[0]} if kind == 'multi_implicit' else {})}, 0.1)
+        Lpre = cm.make_level(ss.FLin, {'A': [[-1.0]]}, SWEEPERS['generic_implicit'] if kind == 'multi_implicit' else SWEEPERS[kind],
+                             {**sweeper_params(kind, M, nt, qt, qd, cu), **({'QI': qd[0]} if kind == 'multi_implicit' else {})}, 0.1)
+        if ksweep is not None:
+            Lpre.sweep.updateVariableCoeffs(ksweep)
+        if any(np.isnan(np.asarray(getattr(Lpre.sweep, key), dtype=float)).any() for key in ('QI', 'QE') if hasattr(Lpre.sweep, key)):
+            rep.extra['nan_tables_skipped'] = rep.extra.get('nan_tables_skipped', 0) + 1  # e.g. LDU with a left end node (division by a zero pivot inside qmat)
+            return
     except Exception as e:
         if 'coefficients' in str(e) or 'nNodes' in str(e):
             rep.extra['not_constructible'] = rep.extra.get('not_constructible', 0) + 1
